@@ -8,6 +8,9 @@ export PYTHONDONTWRITEBYTECODE=1
 # BLAS must not spawn its own thread teams beside Numba's (oversubscription, and irrelevant to the checks)
 export OPENBLAS_NUM_THREADS=1
 export MKL_NUM_THREADS=1
+# idle OpenMP workers sleep instead of spinning (many short parallel regions; the machine may be shared)
+export OMP_WAIT_POLICY=passive
+export GOMP_SPINCOUNT=0
 export VERIF_TIER="$TIER"
 export PYTHONPATH="$HERE${PYTHONPATH:+:$PYTHONPATH}"
 cd "$HERE"
